@@ -17,6 +17,7 @@ from .fmutil import EPOCH, ad, err_class, fm
 import datetime as dt
 
 H = dt.timedelta(hours=1)
+MAX_UPDATES = 4000
 CACHE = {"lin", "step", "next", "prev", "avg", "sum"}
 
 
@@ -115,6 +116,9 @@ class TC(fm.TimeComponent):
         nt = self.time + self._step()
         self.k += 1
         self.tr.current = self.idx
+        self.tr.n_updates = getattr(self.tr, "n_updates", 0) + 1
+        if self.tr.n_updates > MAX_UPDATES:
+            raise Timeout()  # runaway run: far more updates than any generated composition needs
         self.tr.events.append(("update", self.idx, hours(nt)))
         vals = []
         for i in range(self.nin):
@@ -296,7 +300,7 @@ def build(spec, mem_limit=None, mem_location=None):
     return comp, comps, adapters, trace, fin_count, link_objs
 
 
-def run_impl(spec, timeout=20, connect_only=False, mem_limit=None, mem_location=None):
+def run_impl(spec, timeout=8, connect_only=False, mem_limit=None, mem_location=None):
     """returns a dict of observables"""
     res = {"error": None}
     try:
